@@ -188,7 +188,11 @@ def open_scenarios(run: Run, model: PyModel) -> None:
             ("a comment line holding one ZID", "p.zo", "# superseded by 240101#B2.", None, 0, ["EDIT /Z/pg/z.zo"]),
             ("a comment line holding two ZIDs", "p.zo", "# Index: supersedes 240101#B2 and 240101#C3x.", None, 0, ["PROMPT 240101#B2 240101#C3x"]),
             ("a continuation line holding a ZID and a link", "p.zo", "  and mentions 240101#B2 (see also [[q]]).", None, 0, ["PROMPT 240101#B2 [[q]]"]),
-            ("a continuation line holding one ZID", "p.zo", "  * see 240101#C3x", None, 0, ["EDIT /Z/pg/c.zo"])):
+            ("a continuation line holding one ZID", "p.zo", "  * see 240101#C3x", None, 0, ["EDIT /Z/pg/c.zo"]),
+            # indented sub-bullets that LOOK like items (kind character, priority, date, then a ZID): still not the first line of an item, so the ZID is a target
+            ("an indented sub-bullet `- ZID ...`", "p.zo", "    - 240101#B2 is the note to read.", None, 0, ["EDIT /Z/pg/z.zo"]),
+            ("an indented sub-bullet `o P1 YYMMDD [ZID] [[q]]`", "p.zo", "  o P1 240105 [240101#B2] and [[q]]", None, 0, ["PROMPT 240101#B2 [[q]]"]),
+            ("a tab-free line with doubled blanks between targets", "p.zo", "- 240101#A1 see  240101#B2  and   [[q]]", None, 0, ["PROMPT 240101#B2 [[q]]"])):
         r = go(label, pg, ["# Page", "", line, ""], 3, opt)
         if r is None:
             continue
@@ -213,7 +217,7 @@ def open_scenarios(run: Run, model: PyModel) -> None:
             run.check("C17.R2", f"{label}: {wouts}", v == 0 and outs == wouts, "run_action_open", f"{label}: {outs} status {v!r}",
                       f"{label} (`{line}`): the answer is {outs} with status {v!r}, expected {wouts}: the page name is resolved against the notes directory in a way that depends on how that directory is spelled",
                       file=FILE, node=fo.node)
-    run.floor("action-open scenarios", n, 36)
+    run.floor("action-open scenarios", n, 39)
 
 
 def id_lookup_statement(run: Run, model: PyModel) -> None:
